@@ -16,7 +16,8 @@ RULE_TEXT = ("C12-I: every construction of ParseError::Incomplete lies on a path
              "(= C08-I); C12-D: every take_while site either has a class without byte 10 (cannot run to the end of "
              "newline-terminated input) or is followed, on the remainder, by a mandatory tag whose failure is propagated; "
              "C12-G: every accepted unit passes a strict consumer (>= 1 byte)."
-             " C12-PR: the contracts of the parser combinators the skeleton builds on are read from their bodies - satisfy (accept first byte iff pred / soft error / Incomplete on empty), take_while (never fails; longest prefix, position() form or counting-loop form), optional (never fails; Some(value) or input untouched), tag(b) = satisfy(== b).")
+             " C12-PR: the contracts of the parser combinators the skeleton builds on are read from their bodies - satisfy (accept first byte iff pred / soft error / Incomplete on empty), take_while (never fails; longest prefix, position() form or counting-loop form), optional (never fails; Some(value) or input untouched), tag(b) = satisfy(== b)."
+             " C12-W: every parser application inside a parser is on the enclosing parser's input or on a remainder (suffix) of it, never on a window cut out of it.")
 
 
 def run(ck):
@@ -34,6 +35,36 @@ def run(ck):
     rule_D(ck, lib, sk)
     rule_G(ck, lib, sk, "C12-G")
     rule_T(ck, lib, sk)
+    rule_W(ck, lib, sk)
+
+
+def rule_W(ck, lib, sk):
+    """C12-W: a sub-parser's `Incomplete` means "the input ended" - which it can only know when what it is given reaches to
+    the end of the input. Every application of a parser inside a parser is therefore on the enclosing parser's input or on
+    a remainder of it (a suffix), never on a window cut out of it (`input[..n]`): at the end of a window a string or block
+    would report Incomplete although the bytes behind it are there."""
+    n = 0
+    bad = {}
+    for path, f in sorted(sk.fns.items()):
+        if f.get("inp") is None:
+            continue
+        for x in f["exits"]:
+            for (pid, inp, t, oc) in sk.apps_on_path(x, f["ps"]):
+                if inp is None or (pid and pid[0] == "param"):
+                    continue        # a predicate applied to a byte, not a parser applied to input
+                n += 1
+                a = pathsum.strip_sites(inp)
+                if a == pathsum.strip_sites(f["inp"]):
+                    continue
+                try:
+                    ok = sk.chain(inp, f["inp"], x, f["ps"]) is not None
+                except RecursionError:
+                    ok = False
+                if not ok:
+                    bad[(path.split("::")[-1], skeleton.pid_name(pid))] = show_term(a)[:160]
+    ck.judge(not bad, "C12-W", "parser:applications-on-suffixes", "%d parser applications, each on the enclosing parser's input or a remainder of it" % n,
+             "a parser is applied to something that is not a suffix of the enclosing parser's input: %s" % sorted(bad.items())[:3])
+    ck.floor("C12-W", "parser applications examined", n, 60)
 
 
 def eoi_fact(x, inp_terms=None, forward=False):
